@@ -112,6 +112,14 @@ func offered(kind string, img *oracle.Image, t, c uint64, cut int) (data []byte,
 		return good(t+2, t+2, c), false
 	case "min-txid-lower":
 		return good(t-1, t, c), false
+	case "min-txid-lower-max-next":
+		// a multi-transaction file that ends exactly at the next TXID but starts below it: only legal on a node at MinTXID-1
+		return good(t-1, t+1, c), false
+	case "min-txid-1-max-next":
+		if t < 2 {
+			return good(t-1, t+1, c), false
+		}
+		return good(2, t+1, c), false
 	case "wrong-prechecksum":
 		return good(t+1, t+1, c^0x10), false
 	case "flip-page-byte":
@@ -148,7 +156,7 @@ func offered(kind string, img *oracle.Image, t, c uint64, cut int) (data []byte,
 	panic("unknown file kind " + kind)
 }
 
-var fileKinds = []string{"valid", "min-txid-same", "min-txid-gap", "min-txid-lower", "wrong-prechecksum", "flip-page-byte", "flip-file-checksum", "flip-post-checksum", "flip-header-byte", "garbage", "snapshot-with-prechecksum", "snapshot-bad-header-field"}
+var fileKinds = []string{"valid", "min-txid-same", "min-txid-gap", "min-txid-lower", "min-txid-lower-max-next", "min-txid-1-max-next", "wrong-prechecksum", "flip-page-byte", "flip-file-checksum", "flip-post-checksum", "flip-header-byte", "garbage", "snapshot-with-prechecksum", "snapshot-bad-header-field"}
 
 func digest(n *lab.Node) string {
 	db := n.DB("db")
